@@ -9,15 +9,15 @@ from symv.dense import embed, snapshot
 
 META = {
     "level": "exploration",
-    "level_text": "Conservation monitor over the whole returned dictionary: for every lattice the returned keys are exactly the given edges; every term equals, block for block, the library's local builder called by the monitor with the bond coefficient looked up in either orientation and the on-site coefficients divided by the monitor's own degree count; on-site coefficients read off convention-free diagonal elements (one site singly / doubly occupied, the other empty) and summed over all edges touching a site equal the specified mu and U of that site; |hopping| and the interaction read per bond equal the bond's value. parse_edges_to_site_info: each bond name on exactly its two ends with opposite directions (lower-sorted end non-dual), coordination = degree, shapes/tags consistent. All simple graphs on <=4 labelled sites without isolated vertices are enumerated in both tiers; random graphs on 5-6 sites. Later additions: negative and tuple labels, impurity and staggered on-site patterns, coefficient objects (numpy scalars, 0-d arrays) unchanged, bonds listed under both orientations, dictionaries reused after update. Round 9: unions of cycles, complete graphs, bonds, paths, stars and ladders (4-11 sites, disconnected, piecewise regular, shuffled site numbers).",
+    "level_text": "Conservation monitor over the whole returned dictionary: for every lattice the returned keys are exactly the given edges; every term equals, block for block, the library's local builder called by the monitor with the bond coefficient looked up in either orientation and the on-site coefficients divided by the monitor's own degree count; on-site coefficients read off convention-free diagonal elements (one site singly / doubly occupied, the other empty) and summed over all edges touching a site equal the specified mu and U of that site; |hopping| and the interaction read per bond equal the bond's value. parse_edges_to_site_info: each bond name on exactly its two ends with opposite directions (lower-sorted end non-dual), coordination = degree, shapes/tags consistent. All simple graphs on <=4 labelled sites without isolated vertices are enumerated in both tiers; random graphs on 5-6 sites. Later additions: negative and tuple labels, impurity and staggered on-site patterns, coefficient objects (numpy scalars, 0-d arrays) unchanged, bonds listed under both orientations, dictionaries reused after update. Round 9: unions of cycles, complete graphs, bonds, paths, stars and ladders (4-11 sites, disconnected, piecewise regular, shuffled site numbers). Round 11: the abelian spin builders (transverse-field Ising, Heisenberg) under the same conservation monitor on their dense 4x4 terms - bond coupling once, field of a site summed over its bonds = specified value, documented defaults - with a stand-in for the two quimb helpers they import (quimb is not installed; a real quimb is used when present).",
     "technique": "runtime monitoring: conservation (sum over edges = specified per-site / per-bond coefficient) + exact differential against the local builder",
     "rule": (
         "one evaluation = one builder call on one lattice (graph x labeling x orientation/order shuffle x coefficient form x model x symmetry), all conservation sums checked. "
         "Non-trivial = a site of degree >=2 with a non-zero on-site coefficient and non-uniform degrees; distinct by (graph, labeling kind, coefficient forms, model, symmetry)."
     ),
-    "anchors": ["hamiltonians.ham_fermi_hubbard_from_edges", "hamiltonians.ham_fermi_hubbard_spinless_from_edges", "hamiltonians.make_edge_factory", "hamiltonians.make_node_factory", "networks.parse_edges_to_site_info"],
+    "anchors": ["hamiltonians.ham_fermi_hubbard_from_edges", "hamiltonians.ham_fermi_hubbard_spinless_from_edges", "hamiltonians.make_edge_factory", "hamiltonians.make_node_factory", "networks.parse_edges_to_site_info", "hamiltonians.ham_tfim_from_edges", "hamiltonians.tfim_local_array", "hamiltonians.ham_heisenberg_from_edges"],
     "floors": {
-        "quick": {"evaluations": 1500, "distinct_nontrivial": 300, "tables": {"builder/hubbard": 500, "builder/spinless": 400, "builder/site_info": 400, "coeff/dict-reversed-orientation": 100, "coeff/callable": 100, "coeff/dict-reused-after-update": 50, "graphs/exhaustive<=4": 46, "graphs/disconnected": 300, "graphs/disconnected-every-bond-joins-equal-degrees-but-not-regular": 20}},
+        "quick": {"evaluations": 1500, "distinct_nontrivial": 300, "tables": {"builder/hubbard": 500, "builder/spinless": 400, "builder/site_info": 400, "builder/tfim": 200, "builder/heisenberg": 60, "coeff/dict-reversed-orientation": 100, "coeff/callable": 100, "coeff/dict-reused-after-update": 50, "graphs/exhaustive<=4": 46, "graphs/disconnected": 300, "graphs/disconnected-every-bond-joins-equal-degrees-but-not-regular": 20}},
         "thorough": {"evaluations": 20000, "distinct_nontrivial": 3000},
     },
     "exhaustive": {"quick": False, "thorough": False},
@@ -88,7 +88,71 @@ def coeff_edge(rng, edges, given_edges, form, values=(1.0, 0.5, -2.0, 1.5, 0.25)
                 d[(a, b)] = objs[frozenset(e)]
                 d[(b, a)] = objs[frozenset(e)]
         return d, truth
-    return (lambda a, b: objs[frozenset((a, b))]), truth
+    return edge_callable(rng, objs), truth
+
+
+def edge_callable(rng, objs):
+    """The callables users hand in as 'a function of the two sites': a lambda, a function with
+    further defaulted parameters, one taking *sites, a functools.partial, a bound method of
+    a lookup object."""
+    r = rng.random()
+    if r < 0.4:
+        return lambda a, b: objs[frozenset((a, b))]
+    if r < 0.55:
+
+        def f(a, b, default=None, *more):
+            return objs.get(frozenset((a, b)), default)
+
+        return f
+    if r < 0.7:
+
+        def g(*sites):
+            return objs[frozenset(sites)]
+
+        return g
+    if r < 0.85:
+        import functools
+
+        def h(table, a, b, scale=1.0):
+            return table[frozenset((a, b))]
+
+        return functools.partial(h, objs)
+
+    class Lookup:
+        def value(self, a, b, *ignored, **kw):
+            return objs[frozenset((a, b))]
+
+    return Lookup().value
+
+
+def node_callable(rng, objs):
+    """'a function of the site': lambda, bound dict methods (`table.get`, `table.__getitem__`),
+    a function with a defaulted second parameter, *args, a partial."""
+    r = rng.random()
+    if r < 0.35:
+        return lambda s: objs[s]
+    if r < 0.5:
+        return objs.get
+    if r < 0.6:
+        return objs.__getitem__
+    if r < 0.75:
+
+        def f(site, default=8.0):
+            return objs.get(site, default)
+
+        return f
+    if r < 0.87:
+
+        def g(*a):
+            return objs[a[0]]
+
+        return g
+    import functools
+
+    def h(table, site, fallback=0.0, *more):
+        return table[site]
+
+    return functools.partial(h, objs)
 
 
 def coeff_node(rng, sites, form, values=(0.0, 8.0, 1.0, 3.0, 0.5)):
@@ -107,7 +171,7 @@ def coeff_node(rng, sites, form, values=(0.0, 8.0, 1.0, 3.0, 0.5)):
     objs = {s: typed(rng, v) for s, v in truth.items()}
     if form == "dict":
         return dict(objs), truth
-    return (lambda s: objs[s]), truth
+    return node_callable(rng, objs), truth
 
 
 SPINFUL_MAP = {"Z2": [0, 1, 1, 0], "U1": [0, 1, 1, 2], "Z2Z2": [(0, 0), (0, 1), (1, 0), (1, 1)], "U1U1": [(0, 0), (0, 1), (1, 0), (1, 1)]}
@@ -264,6 +328,164 @@ def lattice_case(ctx, rng, n, edges0, exhaustive_tag=None):
         ctx.sample({"edges": repr(given), "degrees": repr(deg), "model": model, "symmetry": sym, "coefficient_forms": forms}, limit=2)
 
 
+def quimb_stand_in():
+    """`tfim_local_array` and `ham_heisenberg_from_edges` import quimb for three 2x2 matrices and
+    one 4x4 one; quimb is not installed here. When it cannot be imported, a stand-in module
+    with exactly those two functions (`pauli`, `ham_heis`; `&` = Kronecker product, as on
+    quimb's qarray) is registered so that the library's own code - coordination counting,
+    coefficient factories, division of the field by the degrees, from_dense - runs under the
+    monitor. A real quimb, when present, is used as it is."""
+    import sys
+    import types
+
+    try:
+        import quimb  # noqa: F401
+
+        return "real"
+    except Exception:
+        pass
+
+    class qarr(np.ndarray):
+        def __and__(self, other):
+            return np.kron(np.asarray(self), np.asarray(other)).view(qarr)
+
+    mats = {"I": [[1, 0], [0, 1]], "X": [[0, 1], [1, 0]], "Z": [[1, 0], [0, -1]], "Y": [[0, -1j], [1j, 0]]}
+
+    def pauli(s, dim=2, **kw):
+        return np.array(mats[s.upper()], dtype=kw.get("dtype", complex)).view(qarr)
+
+    def ham_heis(n, j=1.0, b=0.0, cyclic=False, **kw):
+        if n != 2 or b != 0.0:
+            raise NotImplementedError("stand-in: two sites, no field")
+        try:
+            jx, jy, jz = j
+        except TypeError:
+            jx = jy = jz = j
+        h = sum(c * np.kron(np.array(mats[k]), np.array(mats[k])) for c, k in ((jx, "X"), (jy, "Y"), (jz, "Z"))) / 4
+        return np.ascontiguousarray(h.real).view(qarr)
+
+    m = types.ModuleType("quimb")
+    m.pauli, m.ham_heis, m.__symv_stand_in__ = pauli, ham_heis, True
+    sys.modules["quimb"] = m
+    return "stand-in"
+
+
+PAULI = {"I": np.eye(2), "X": np.array([[0.0, 1.0], [1.0, 0.0]]), "Z": np.array([[1.0, 0.0], [0.0, -1.0]])}
+YY_REAL = np.real(np.kron(np.array([[0, -1j], [1j, 0]]), np.array([[0, -1j], [1j, 0]])))
+
+
+def spin_case(ctx, rng, n, edges0):
+    """Transverse-field Ising and Heisenberg builders (abelian, spin-1/2 sites): the same
+    conservation law - every bond once, the field of a site adds up to the specified value
+    over the bonds touching it - judged on the dense 4x4 form of every term."""
+    sr = ctx.sr
+    PASSED.clear()
+    kind = rng.choice(["int", "tuple", "str"])
+    labs = relabel(rng, n, kind)
+    edges = [(labs[a], labs[b]) for a, b in edges0]
+    given = [((b, a) if rng.random() < 0.5 else (a, b)) for a, b in edges]
+    rng.shuffle(given)
+    sites = sorted({v for e in given for v in e})
+    deg = {s: sum(1 for e in given if s in e) for s in sites}
+    DEG.clear()
+    DEG.update(deg)
+    model = "tfim" if rng.random() < 0.75 else "heisenberg"
+    ctx.count("builder", model)
+    ctx.count("labels", kind)
+    if model == "heisenberg":
+        sym = rng.choice(["Z2", "U1"])
+        j = rng.choice([1.0, 0.5, -2.0])
+        wit = {"edges": repr(given), "model": model, "symmetry": sym, "j": j}
+        o = ctx.call(sr.ham_heisenberg_from_edges, sym, given, j=j) if rng.random() < 0.7 else None
+        if o is None:
+            j = 1.0
+            o = ctx.call(sr.ham_heisenberg_from_edges, sym, given)
+        ctx.evaluated()
+        V_ = lambda mech, msg: ctx.violation(mech, msg, wit)
+        if not o.ok:
+            V_(f"builder-raises-{o.excname}", repr(o.exc))
+            return
+        H = o.value
+        if set(H.keys()) != set(given) or len(H) != len(given):
+            V_("terms-keys", f"returned keys {list(H.keys())} != edges as given {given}")
+            return
+        want = j * (np.kron(PAULI["X"], PAULI["X"]) + YY_REAL + np.kron(PAULI["Z"], PAULI["Z"])) / 4
+        for (a, b), G in H.items():
+            errs = audit(G)
+            if errs:
+                V_("term-invalid-array", str(errs[:2]))
+                return
+            d = embed(G)
+            if d.shape != (2, 2, 2, 2) or G.duals != (False, False, True, True) or not np.allclose(d.reshape(4, 4), want, rtol=0, atol=1e-13):
+                V_("heisenberg-term-value", f"edge {(a, b)}: term is not j S.S with j = {j}")
+                return
+        if len(set(deg.values())) > 1:
+            ctx.nontrivial((tuple(map(tuple, edges0)), kind, model, sym))
+        return
+    forms = {k: rng.choice(["scalar", "dict", "callable"]) for k in ("jx", "hz")}
+    jx_arg, jx_true = coeff_edge(rng, edges, given, forms["jx"], values=(-1.0, 1.0, 0.5, -2.0, 0.25))
+    hz_arg, hz_true = coeff_node(rng, sites, forms["hz"], values=(-3.0, 0.0, 1.0, 0.5, 2.0))
+    for k in ("jx", "hz"):
+        ctx.count("coeff", forms[k])
+    if forms["jx"] == "dict" and any((b, a) in jx_arg for a, b in given):
+        ctx.count("coeff", "dict-reversed-orientation")
+    wit = {"edges": repr(given), "model": model, "forms": forms, "jx": repr(jx_true), "hz": repr(hz_true)}
+    kw = {}
+    defaults = rng.random() < 0.1
+    if defaults:
+        # documented defaults jx=-1, hz=-3
+        jx_true = {frozenset(e): -1.0 for e in edges}
+        hz_true = {s: -3.0 for s in sites}
+        ctx.count("coeff", "tfim-defaults")
+    else:
+        kw = dict(jx=jx_arg, hz=hz_arg)
+    o = ctx.call(sr.ham_tfim_from_edges, "Z2", given, **kw)
+    ctx.evaluated()
+    V_ = lambda mech, msg: ctx.violation(mech, msg, wit)
+    if not o.ok:
+        V_(f"builder-raises-{o.excname}", repr(o.exc))
+        return
+    H = o.value
+    for obj, val in PASSED:
+        if float(obj) != val:
+            V_("coefficient-object-modified", f"a coefficient passed as {type(obj).__name__} held {val} before the call and {float(obj)} after it")
+            return
+    if set(H.keys()) != set(given) or len(H) != len(given):
+        V_("terms-keys", f"returned keys {list(H.keys())} != edges as given {given}")
+        return
+    field = {s: 0.0 for s in sites}
+    XX, ZI, IZ = np.kron(PAULI["X"], PAULI["X"]), np.kron(PAULI["Z"], PAULI["I"]), np.kron(PAULI["I"], PAULI["Z"])
+    for (a, b), G in H.items():
+        errs = audit(G)
+        if errs:
+            V_("term-invalid-array", str(errs[:2]))
+            return
+        d = embed(G)
+        if d.shape != (2, 2, 2, 2) or G.duals != (False, False, True, True):
+            V_("tfim-term-layout", f"edge {(a, b)}: shape {d.shape} duals {G.duals}")
+            return
+        m = d.reshape(4, 4)
+        jj = jx_true[frozenset((a, b))]
+        # (b) exact differential: bond coupling once, fields divided by the monitor's degrees
+        want = jj * XX + (hz_true[a] / deg[a]) * ZI + (hz_true[b] / deg[b]) * IZ
+        if not np.allclose(m, want, rtol=0, atol=1e-12):
+            V_("term-differs-from-local-builder", f"term {(a, b)} is not jx X.X + hz_a/deg_a Z.I + hz_b/deg_b I.Z for jx={jj}, fields ({hz_true[a]},{hz_true[b]}), degrees ({deg[a]},{deg[b]})")
+            return
+        # (c) conservation, read off the diagonal: <00|h|00> = fa + fb, <01|h|01> = fa - fb, <10|h|10> = -fa + fb
+        field[a] += (m[0, 0] + m[1, 1]) / 2
+        field[b] += (m[0, 0] + m[2, 2]) / 2
+        if abs(m[0, 3] - jj) > 1e-12 or abs(m[1, 2] - jj) > 1e-12:
+            V_("bond-coupling", f"edge {(a, b)}: X.X elements {m[0, 3]}, {m[1, 2]} != jx = {jj}")
+            return
+    for s in sites:
+        if abs(field[s] - hz_true[s]) > 1e-12 * max(1, deg[s]) * 4:
+            V_("onsite-field-not-conserved", f"site {s!r} (degree {deg[s]}): field summed over its edges = {field[s]} != specified {hz_true[s]}")
+            return
+    if len(set(deg.values())) > 1 and any(deg[s] >= 2 and hz_true[s] != 0 for s in sites):
+        ctx.nontrivial((tuple(map(tuple, edges0)), kind, tuple(sorted(forms.items())), model))
+        ctx.sample({"edges": repr(given), "degrees": repr(deg), "model": model, "coefficient_forms": forms}, limit=1)
+
+
 def site_info_case(ctx, rng, n, edges0):
     sr = ctx.sr
     kind = rng.choice(["int", "tuple", "str"])
@@ -389,6 +611,18 @@ def run(ctx):
     import random
 
     graphs = small_graphs()
+    ctx.count("quimb", quimb_stand_in())
+    for k_, rng in ctx.cases("spin-models", ctx.budget(600, 12000)):
+        r_ = rng.random()
+        if r_ < 0.4:
+            n, es = graphs[rng.randrange(len(graphs))]
+        elif r_ < 0.7:
+            n, es, _kinds = structured_graph(rng)
+            if not es:
+                continue
+        else:
+            n, es = random_graph(rng)
+        ctx.run_case(spin_case, ctx, rng, n, es)
     reps = ctx.budget(45, 900)
     k = 0
     for rep in range(reps):
